@@ -114,7 +114,7 @@ var meta = map[string]*propMeta{
 		Rule: "one run = one pool (NewSerializerPool / NewEncoderPool / NewDecoderPool, size 0..8) and 1..64 client tasks with drawn Get/use/Return scripts (a task may hold up to 4 objects), executed under the seeded cooperative scheduler (random / round-robin / PCT, mean quantum 1..100 library statements, preemption inside Get and Return), optionally with stalled and abandoning holders, with callers' idle periods of 1 ms .. 45 min on the fake clock (one run in three) and with a sibling pool of the same kind over the same maps (one run in four; an object must never leave a pool other than the one that produced it); followed by a drain of size+2 Gets per pool. Checked: ownership table after every event, fake-clock block detection, caller's own statements per call, porcupine on the recorded history against a nondeterministic pool model, race detector. A run is non-trivial when at least one context switch or scheduler fault happened; distinct = distinct fingerprints of the scheduling + event log.",
 		Assumptions: []string{"objects are identified by pointer and kept reachable until the run ends", "a history on which porcupine times out (8 s) is inconclusive: counted, never reported, never a pass",
 			"preemption is at statement granularity (instrumented copy); intra-statement conflicts are the race detector's job",
-			"the simulator schedules caller tasks only: a library that starts goroutines of its own, or keeps a channel / timer from one simulation run to the next, ends the check with exit 2 (no verdict)"},
+			"the simulator schedules caller tasks only: goroutines the library starts itself run outside the scheduler (tolerated; the oracles judge task events); one that waits for a cooperative lock, or a channel / timer kept from one simulation run to the next, ends the check with exit 2 (no verdict)"},
 		Real:      append([]string{"pool.go and the factories (real encoders / decoders / serializers)", "Go race detector (made schedule-deterministic by the RaceDisable bracket)", "porcupine v1.3.0"}, commonReal...),
 		Simulated: []string{"caller goroutine scheduling (one task unparked at a time, choice stream decides)", "fake clock (testing/synctest): block detection and callers' idle periods", "logger (no-op)"},
 		EvalsAre:  "simulated runs",
@@ -140,7 +140,7 @@ var meta = map[string]*propMeta{
 		Assumptions: []string{"a result mismatch that also shows when the same scripts run strictly one task after another is a reuse defect (C11), counted as a probe and not reported under C12",
 			"conflicts are found only on paths the scripts execute; the statement's static clause (no write to package-level state anywhere reachable) is not decided by this technique",
 			"preemption is at statement granularity; intra-statement conflicts are found by the race detector, not by the result oracle",
-			"the simulator schedules caller tasks only: a library that starts goroutines of its own ends the check with exit 2 (no verdict)"},
+			"the simulator schedules caller tasks only: goroutines the library starts itself run outside the scheduler (tolerated); one that waits for a cooperative lock ends the check with exit 2 (no verdict)"},
 		Real:      append([]string{"pool.go (when pooled)", "bufio.Reader, bytes.Buffer", "Go race detector (schedule-deterministic through the RaceDisable bracket)"}, commonReal...),
 		Simulated: []string{"caller goroutine scheduling", "fake clock (testing/synctest) for block detection", "map iteration order inside writeMap (seeded)", "logger (no-op)"},
 		EvalsAre:  "simulated runs",
